@@ -108,6 +108,13 @@ pub fn run_input<K: Kmer + Send + Sync + serde::Serialize + serde::de::Deseriali
     };
     if w.graphq {
         ev_graphq::<K>(sink, r, inp, &nodes, "compress");
+        // the same queries on the graph that compress_graph builds from the one-k-mer-per-node graph
+        if r.chance(1, 2) {
+            let spec = Spec { mode: inp.mode };
+            if let Ok(rc) = guard(|| project_graph(&debruijn::compression::compress_graph(inp.stranded, &spec, one_per_kmer::<K>(&pruned, inp.stranded).finish(), None))) {
+                ev_graphq::<K>(sink, r, inp, &rc, "recompressed");
+            }
+        }
     }
     if w.iter {
         ev_iter::<K>(sink, r, inp, &nodes);
@@ -220,7 +227,9 @@ pub fn record(sink: &Sink, args: &Args) {
         }
     }
     for _ in 0..n {
-        let inp = gen_input(&mut r, &GRAPH_KS);
+        // long reads (nodes >= 256 bases) only where the oracle does not have to group their k-mers: exports and persistence
+        let allow_long = w.export && !(w.graphq || w.compress || w.recompress || w.pipeline || w.strand || w.prune || w.lifecycle);
+        let inp = gen_input(&mut r, &GRAPH_KS, allow_long);
         let k = inp.k;
         with_kmer!(k, run_input(sink, &mut r, &inp, &w));
     }
